@@ -181,12 +181,60 @@ func c17PrefixUnderLock(c *Check, a *Anchors) {
 	c.Rule("prefix-under-lock", "in the prefixed style every write to the shared stream and every access to the shared colour bookkeeping (Prefixed.seen, Prefixed.counter) happens while Prefixed.mutex is held (both `Lock(); defer Unlock()` and `defer Unlock(); Lock()` are recognised); all the writes that make up one line are in one critical section")
 	n := 0
 	ord := map[string]int{}
+	// the shared stream: prefixWriter.writer, and every io.Writer parameter of a function of the package that all its call
+	// sites bind to the stream (the locked part of the line writer moved into a method that receives the stream)
+	streamParams := map[*types.Var]bool{}
+	isStream := func(info *types.Info, e ast.Expr) bool {
+		if fieldSel(info, e, PkgOutput, "prefixWriter", "writer") {
+			return true
+		}
+		v := varOf(info, e)
+		return v != nil && streamParams[v]
+	}
+	for changed := true; changed; {
+		changed = false
+		for _, h := range c.P.BodiesIn(PkgOutput) {
+			if h.Decl == nil || h.Obj == nil || h.Type.Params == nil {
+				continue
+			}
+			hinfo := h.Info()
+			idx := 0
+			for _, fld := range h.Type.Params.List {
+				for _, id := range fld.Names {
+					pv, _ := hinfo.Defs[id].(*types.Var)
+					if pv != nil && !streamParams[pv] && types.TypeString(pv.Type(), nil) == "io.Writer" {
+						all, sites := true, 0
+						for _, cb := range c.P.BodiesIn(PkgOutput) {
+							for _, call := range callsIn(cb, false) {
+								if fn, ok := callee(cb.Info(), call).(*types.Func); ok && fn == h.Obj {
+									sites++
+									if idx >= len(call.Args) || !isStream(cb.Info(), call.Args[idx]) {
+										all = false
+									}
+								}
+							}
+						}
+						if all && sites > 0 {
+							streamParams[pv] = true
+							changed = true
+						}
+					}
+					idx++
+				}
+			}
+		}
+	}
 	for _, fb := range c.P.BodiesIn(PkgOutput) {
 		info := fb.Info()
 		touches := false
 		inspectBody(fb.Body, func(nd ast.Node) bool {
 			if sel, ok := nd.(*ast.SelectorExpr); ok {
 				if fieldSel(info, sel, PkgOutput, "Prefixed", "seen") || fieldSel(info, sel, PkgOutput, "Prefixed", "counter") || fieldSel(info, sel, PkgOutput, "prefixWriter", "writer") {
+					touches = true
+				}
+			}
+			if id, ok := nd.(*ast.Ident); ok {
+				if v, ok := info.Uses[id].(*types.Var); ok && streamParams[v] {
 					touches = true
 				}
 			}
@@ -234,7 +282,14 @@ func c17PrefixUnderLock(c *Check, a *Anchors) {
 					case fieldSel(info, sel, PkgOutput, "Prefixed", "counter"):
 						what = "Prefixed.counter"
 					case fieldSel(info, sel, PkgOutput, "prefixWriter", "writer"):
-						if _, isCall := node.(*ast.CallExpr); isCall {
+						if call, isCall := node.(*ast.CallExpr); isCall && !handsStreamOn(c, info, call) {
+							what = "write to the shared stream"
+						}
+					}
+				}
+				if id, ok := m.(*ast.Ident); ok {
+					if v, ok := info.Uses[id].(*types.Var); ok && streamParams[v] {
+						if call, isCall := node.(*ast.CallExpr); isCall && !handsStreamOn(c, info, call) {
 							what = "write to the shared stream"
 						}
 					}
@@ -383,6 +438,7 @@ func c17PrefixLineComplete(c *Check, a *Anchors) {
 type closerBody struct {
 	body   *FuncBody
 	fields map[string]*types.Var // for a method-value closer: receiver field -> variable of WrapWriter it was initialised from
+	recv   *types.Var            // for a method-value closer x.m: the variable x of WrapWriter (the method's receiver is that object)
 }
 
 // closerBodies resolves the CloseFunc a WrapWriter returns: a function literal, or a method value x.m whose receiver x is
@@ -406,7 +462,7 @@ func closerBodies(c *Check, wrap *FuncBody) []closerBody {
 			if d == nil {
 				continue
 			}
-			cb := closerBody{body: d, fields: map[string]*types.Var{}}
+			cb := closerBody{body: d, fields: map[string]*types.Var{}, recv: varOf(info, x.X)}
 			if v := varOf(info, x.X); v != nil {
 				for _, def := range defsOf(info, wrap.Body, v) {
 					def = ast.Unparen(def)
@@ -438,4 +494,16 @@ func closerBodies(c *Check, wrap *FuncBody) []closerBody {
 		}
 	}
 	return out
+}
+
+
+// handsStreamOn: the call passes the stream to a function of internal/output (which is judged on its own, with the
+// parameter it receives the stream in) rather than writing to it.
+func handsStreamOn(c *Check, info *types.Info, call *ast.CallExpr) bool {
+	fn, ok := callee(info, call).(*types.Func)
+	if !ok {
+		return false
+	}
+	d := c.P.DeclOf(fn)
+	return d != nil && d.Pkg.PkgPath == PkgOutput
 }
